@@ -447,10 +447,14 @@ def crosscheck(ctx, suite, c, n=60, seed=0):
         if bad:
             s.add(z3.Or(*bad))
             r = s.check()
-            if r != z3.unsat:
+            if r == z3.sat:
                 ctx.checker_failure("executor/CPython disagreement on %s(%s): native %s, solver says %s" % (
                     c.name, kw, raised or repr(native), r))
                 return done
+            if r != z3.unsat:
+                # the solver did not decide this input within its budget (cofinite masks under load): not a
+                # disagreement and not a comparison -- the input is not counted
+                continue
         done += 1
     ctx.crosscheck_inputs += done
     return done
